@@ -78,14 +78,14 @@ Proof.
   assert (Hz : 0 < vz (closing_vector index (sigb Ordinary 0 (- (1 / 10)) 2 (1, 1)) (pumpb Ordinary 1 (1, 1)) PPOff)).
   { rewrite (closing_z index Ordinary Ordinary 0 (- (1 / 10)) 2 1 (1, 1) (1, 1) PPOff ltac:(lra) ltac:(lra) I).
     apply Rmult_lt_0_compat; [apply (Kq_pos (- (1 / 10)) 2 ltac:(lra) (range_pi _ Hth))|].
-    unfold w_z, n_p, n_s, kpp, refractive_index, index, pp_k_pp. pose proof (COS_bound (- (1 / 10))). lra. }
+    unfold w_z, n_p, n_s, kpp, refractive_index, beam_refractive_index, index, pp_k_pp. pose proof (COS_bound (- (1 / 10))). lra. }
   assert (Hs : optimum_idler index Type2_e_eo false (sigb Ordinary 0 (- (1 / 10)) 2 (1, 1)) (pumpb Ordinary 1 (1, 1)) PPOff =
                Some (idler_b index Type2_e_eo Ordinary Ordinary 0 (- (1 / 10)) 2 1 (1, 1) (1, 1) PPOff false)).
   { apply (optimum_idler_some index Type2_e_eo Ordinary Ordinary 0 (- (1 / 10)) 2 1 (1, 1) (1, 1) PPOff); lra. }
   assert (Hc : vcross (b_dir (idler_b index Type2_e_eo Ordinary Ordinary 0 (- (1 / 10)) 2 1 (1, 1) (1, 1) PPOff false))
                       (closing_vector index (sigb Ordinary 0 (- (1 / 10)) 2 (1, 1)) (pumpb Ordinary 1 (1, 1)) PPOff) <> vzero).
   { apply (C03_parallel_neg_all index Type2_e_eo Ordinary Ordinary 0 (- (1 / 10)) 2 1 (1, 1) (1, 1) PPOff); try lra; try exact I; try assumption.
-    unfold n_s, refractive_index, index. lra. }
+    unfold n_s, refractive_index, beam_refractive_index, index. lra. }
   exists index, Type2_e_eo, Ordinary, Ordinary, 0, (- (1 / 10)), 2, 1, (1, 1), (1, 1), PPOff,
     (idler_b index Type2_e_eo Ordinary Ordinary 0 (- (1 / 10)) 2 1 (1, 1) (1, 1) PPOff false).
   split; [split; [lra | split; [exact I | exact Hth]]|].
